@@ -92,6 +92,16 @@ SerialCalls(x) ==
 LegalCalls ==
   {[op |-> "LoadLegal", dst |-> 2, as |-> SetToSeq(S), v |-> v, w |-> w, j |-> 4] : S \in SUBSET A, v \in 0..63, w \in 0..4}
 
+ItNewCalls == {[op |-> "ItNew", a |-> 1, x |-> 1, rcp |-> kd, j |-> j] : kd \in {"fwd", "rev", "many"}, j \in {0, 3, 5, 9}}
+              \cup {[op |-> "ItNew", a |-> 1, x |-> 1, rcp |-> "unset", c0 |-> p[1], c1 |-> p[2], j |-> 0] :
+                       p \in {q \in CellEnds \X CellEnds : q[1] <= q[2]}}
+ItStepCalls == {[op |-> "ItTake", a |-> 1], [op |-> "ItPeek", a |-> 1]}
+               \cup {[op |-> "ItAdvance", a |-> 1, c0 |-> cl, side |-> sd] : cl \in 1..U.ncell, sd \in {0, 1}}
+OneShotCalls(x) ==
+  {[op |-> "IterCb", x |-> x, rcp |-> w, c0 |-> cl] : w \in {"Iterate", "Values", "Backward"}, cl \in 1..U.ncell}
+  \cup {[op |-> "IterCb", x |-> x, rcp |-> "Unset", c0 |-> p[2], c1 |-> p[1]] : p \in {q \in (1..U.ncell) \X (1..U.ncell) : q[1] <= q[2]}}
+  \cup {[op |-> "Ranges", x |-> x, v |-> v] : v \in {0, 1, 2, 3}}
+
 AggOps == {"FastOr", "HeapOr", "ParOr", "ParHeapOr", "FastAnd", "ParAnd", "HeapXor"}
 Lists == UNION {[1..n -> 1..4] : n \in 0..MaxList}
 AggCalls ==
@@ -100,12 +110,12 @@ AggCalls ==
 
 \* SelectAuto is resolved by the replayer (index at the v-th cumulative-weight boundary of the
 \* concrete universe); on the model it is a stuttering query.
-Eff(c, k) == IF k.op = "SelectAuto" THEN c ELSE Effect(U, c, k)
+Eff(c, k) == IF k.op \in {"SelectAuto", "ItNew", "ItTake", "ItPeek", "ItAdvance", "IterCb", "Ranges"} THEN c ELSE Effect(U, c, k)
 
 Init ==
   /\ hist = <<>>
   /\ CASE Mode = "pairs" -> \E S1, S2 \in SUBSET A : content = [Empty EXCEPT ![1] = S1, ![2] = S2]
-       [] Mode \in {"step", "serial"} -> \E S1 \in SUBSET A : content = [Empty EXCEPT ![1] = S1]
+       [] Mode \in {"step", "serial", "iter", "oneshot"} -> \E S1 \in SUBSET A : content = [Empty EXCEPT ![1] = S1]
        [] Mode = "legal" -> content = Empty
        [] Mode = "agg" -> \E S1, S2 \in SUBSET A : content = [Empty EXCEPT ![1] = S1, ![2] = S2, ![3] = A]
        [] Mode = "hist" -> content = Empty
@@ -115,6 +125,8 @@ Calls ==
     [] Mode = "step" -> MutCalls(1) \cup QueryCalls(1) \cup TransCalls(1)
     [] Mode = "agg" -> AggCalls
     [] Mode = "serial" -> SerialCalls(1)
+    [] Mode = "oneshot" -> OneShotCalls(1)
+    [] Mode = "iter" -> IF hist = <<>> THEN ItNewCalls ELSE ItStepCalls
     [] Mode = "legal" -> LegalCalls
     [] Mode = "hist" -> MutCalls(1) \cup MutCalls(2) \cup
                         {[op |-> o, x |-> x, y |-> 3 - x] : o \in BinOps, x \in {1, 2}}
@@ -124,9 +136,9 @@ Next ==
      /\ \E k \in Calls :
           /\ content' = Eff(content, k)
           /\ hist' = Append(hist, k)
-  \/ \* hist mode: a completed history is emitted exactly once, by the step that closes it
-     /\ Mode = "hist" /\ Len(hist) = Depth
-     /\ PrintT(ToJson([st |-> Struct, calls |-> hist]))
+  \/ \* hist / iter mode: a completed history is emitted exactly once, by the step that closes it
+     /\ Mode \in {"hist", "iter"} /\ Len(hist) = Depth
+     /\ PrintT(ToJson([st |-> Struct, calls |-> (IF Mode = "iter" THEN <<Build(1, content[1])>> ELSE <<>>) \o hist]))
      /\ hist' = Append(hist, [op |-> "End"])
      /\ content' = content
 
@@ -135,14 +147,15 @@ Spec == Init /\ [][Next]_vars
 \* ---- emission of scripts for the replayer -----------------------------------------------------------
 Prefix(c) ==
   CASE Mode = "pairs" -> <<Build(1, c[1]), Build(2, c[2])>>
-    [] Mode \in {"step", "serial"} -> <<Build(1, c[1])>>
+    [] Mode \in {"step", "serial", "oneshot"} -> <<Build(1, c[1])>>
+    [] Mode = "iter" -> <<>>
     [] Mode = "legal" -> <<>>
     [] Mode = "agg" -> <<Build(1, c[1]), Build(2, c[2]), Build(3, c[3])>>
     [] Mode = "hist" -> <<>>
 
 \* one line per transition (one-step modes) -- used as ACTION_CONSTRAINT, always TRUE
 EmitStep ==
-  \/ Mode = "hist"
+  \/ Mode \in {"hist", "iter"}
   \/ PrintT(ToJson([st |-> Struct, calls |-> Prefix(content) \o hist']))
 
 \* ---- properties checked on the model ----------------------------------------------------------------
